@@ -1,4 +1,5 @@
 """What C01, C02, C03, C05 and C07 share: AcmeFlow model checking + validation of per-certificate traces."""
+from scenario import simple_cert
 import json, os
 import tlc, project, vcrypto
 from common import fresh_dir, save_replay, ToolError, log
@@ -122,6 +123,10 @@ def install_pair(cert_cfg, mode):
         key_pem = leaf["key_pem"]
         if mode == "badkey":
             open(base + ".pk.pem", "w").write("this is not a key\n")
+        elif mode == "emptykey":
+            open(base + ".pk.pem", "w").close()          # left behind by an interrupted write, or created by provisioning
+        elif mode == "truncatedkey":
+            open(base + ".pk.pem", "w").write(key_pem[: len(key_pem) // 2])
         else:
             if mode == "mismatch":
                 key_pem = vc.must("gen_key", key_type=kt)["key_pem"]
@@ -132,6 +137,20 @@ def install_pair(cert_cfg, mode):
         cf = project.file_facts_from_disk(vc, base + ".crt.pem", "cert")
         sc.tw.emit({"src": "drv", "ev": "Disk", "cert": cid, "key": kf, "crt": cf})
     return f
+
+
+def prestate_specs(tag, kinds=("badkey", "emptykey", "truncatedkey", "othertype", "mismatch", "pair")):
+    """Fault-free attempts (two in a row) over what the certificate's files hold beforehand x kp_reuse: a key file acmed cannot use,
+    can use but not as configured, or a pair that does not belong together."""
+    specs = []
+    for pre in kinds:
+        for reuse in (False, True):
+            c = simple_cert("pre-%s-%d" % (pre, reuse), ids=[{"dns": "pre.example.org", "challenge": "http-01"}], kp_reuse=reuse)
+            sp = prepare(dict(tag="%s/k%02d" % (tag, len(specs)), certs=[c], attempts=2,
+                              meta={"family": "files present before a fault-free attempt", "pre": pre, "kp_reuse": reuse}))
+            sp["steps"] = [("call", install_pair(sp["certs"][0], pre)), ("run", {})]
+            specs.append(sp)
+    return specs
 
 
 def validate(tag, results, labels, hooks=None):
